@@ -571,9 +571,9 @@ def run(ctx, replay=None):
                                              'trusted_base': common.TRUSTED_BASE, 'explanation': 'build failed'}, [])
         return
     po = common.proof_obligations(ctx.prop)
-    ck = common.coqchk(ctx.prop) if ctx.tier == 'thorough' else None
-    if ck is not None and not ck['ok']:
-        path = common.write_replay(ctx, 'coqchk', {'kind': 'coqchk-failed', 'summary': ck['summary']})
+    chk_res = common.coqchk(ctx.prop) if ctx.tier == 'thorough' else None
+    if chk_res is not None and not chk_res['ok']:
+        path = common.write_replay(ctx, 'coqchk', {'kind': 'coqchk-failed', 'summary': chk_res['summary']})
         common.violation(ctx, path, found_input=False)
     bad = common.hygiene()
     n_obl = len(po['theorems'])
@@ -687,7 +687,7 @@ def run(ctx, replay=None):
             'oracle contract (z3 is sound on sat and complete on unsat): a Section hypothesis of every theorem, not an axiom',
             'recording subclasses of z3.Solver/z3.Optimize (harness/solverproxy.py)',
             'Print Assumptions: ' + '; '.join('%s: %s' % (t, po['assumptions'].get(t, 'NOT PRINTED')) for t in po['theorems'])],
-        'coqchk': ({'axioms': ck['axioms'], 'ok': ck['ok']} if ck else 'thorough tier only'), 'theorems': po['theorems'], 'hygiene_hits': bad,
+        'coqchk': ({'axioms': chk_res['axioms'], 'ok': chk_res['ok']} if chk_res else 'thorough tier only'), 'theorems': po['theorems'], 'hygiene_hits': bad,
         'evaluations': len(cases), 'distinct_nontrivial': distinct,
         'rule': 'tiny problems (<= 3 tasks, horizon <= 8) with objectives / histories drawn from seed %d; each case is one SchedulingSolver object driven through a history of calls; distinct by (program, objectives, config, history)' % ctx.seed,
         'samples': sample_cases,
